@@ -168,7 +168,7 @@ pub fn run(ctx: &mut Ctx) {
         }
     }
     ctx.stratum("W-boundary-values-all-types", true);
-    let bv: Vec<u64> = vec![0, 1, 2, 127, 128, 255, 256, 32767, 32768, 65535, 65536, (1 << 31) - 1, 1 << 31, (1u64 << 32) - 1, 1 << 32, crate::mv::MAX_SAFE - 1, crate::mv::MAX_SAFE];
+    let bv: Vec<u64> = vec![0, 1, 2, 127, 128, 255, 256, 32767, 32768, 65535, 65536, (1 << 31) - 1, 1 << 31, (1u64 << 32) - 1, 1 << 32, crate::mv::MAX_SAFE - 1, crate::mv::MAX_SAFE, 100, 10_000, 100_000_000, 300_000_000, 2_100_000_000, 9_999_999_999, 10_000_000_000, 1_000_000_000_000, 900_719_900_000_000];
     for &a in &bv {
         for &b in &bv {
             if !ctx.take() {
@@ -177,7 +177,7 @@ pub fn run(ctx: &mut Ctx) {
             for &c in &bv {
                 ctx.class(&format!("all-types/3/max<2^{}", 64 - a.max(b).max(c).leading_zeros()));
                 all_types3(ctx, a, b, c);
-                for &d in &[0u64, 1, 255, 65536, crate::mv::MAX_SAFE] {
+                for &d in &[0u64, 1, 255, 65536, crate::mv::MAX_SAFE, 100_000_000, 300_000_000, 2_100_000_000, 10_000_000_000, 900_719_900_000_000] {
                     ctx.class(&format!("all-types/4/max<2^{}", 64 - a.max(b).max(c).max(d).leading_zeros()));
                     all_types4(ctx, a, b, c, d);
                 }
@@ -196,7 +196,11 @@ pub fn run(ctx: &mut Ctx) {
             let bits = 1 + r.below(50) as u32;
             (r.next() & ((1u64 << bits) - 1)).min(crate::mv::MAX_SAFE)
         };
-        let (a, b, c, d) = (val(&mut r), val(&mut r), val(&mut r), val(&mut r));
+        let (a, b, c, mut d) = (val(&mut r), val(&mut r), val(&mut r), val(&mut r));
+        if r.chance(1, 4) {
+            // decimal-round values: k x 10^e
+            d = ((1 + r.below(99)) as u64).saturating_mul(10u64.pow(r.below(14) as u32)).min(crate::mv::MAX_SAFE);
+        }
         ctx.class("random/all-types");
         all_types3(ctx, a, b, c);
         all_types4(ctx, a, b, c, d);
